@@ -20,6 +20,7 @@ produce are replayed with a scripted optimization library (c03_script.py).
 from __future__ import annotations
 
 import json
+import os
 import random
 
 from ..core import Check, MachineryError, main
@@ -32,11 +33,12 @@ ACTIONS = ("Execute", "PreRunDone", "AskOwn", "OrigCall", "Store", "NewIter", "N
 
 
 def model_cfg(*, points=2, nfuncs=2, maxexec=2, maxn=2, nxs="{2}", usedb="{TRUE}", storejac="{TRUE}",
-              nanpt=True, assume=False, invs=INVS, extra=""):
+              nanpt=True, assume=False, composites="{FALSE}", invs=INVS, extra=""):
     s = "CONSTANTS\n"
     s += f" Points = {{{', '.join(str(i) for i in range(1, points + 1))}}}\n NFuncs = {nfuncs}\n"
     s += f" MaxExec = {maxexec}\n AssumeValueFirst = {'TRUE' if assume else 'FALSE'}\n MaxN = {maxn}\n"
     s += f" NXs = {nxs}\n UseDbs = {usedb}\n StoreJacs = {storejac}\n WithNanPt = {'TRUE' if nanpt else 'FALSE'}\n"
+    s += f" Composites = {composites}\n"
     s += "SPECIFICATION Spec\nCHECK_DEADLOCK FALSE\n"
     for i in invs:
         s += f"INVARIANT {i}\n"
@@ -45,7 +47,7 @@ def model_cfg(*, points=2, nfuncs=2, maxexec=2, maxn=2, nxs="{2}", usedb="{TRUE}
 
 def trace_cfg(lenient):
     return ("CONSTANTS\n Points = {1}\n NFuncs = 1\n MaxExec = 99\n AssumeValueFirst = FALSE\n MaxN = 1\n"
-            " NXs = {2}\n UseDbs = {TRUE}\n StoreJacs = {TRUE}\n WithNanPt = FALSE\n"
+            " NXs = {2}\n UseDbs = {TRUE}\n StoreJacs = {TRUE}\n WithNanPt = FALSE\n Composites = {FALSE}\n"
             f" Lenient = {'TRUE' if lenient else 'FALSE'}\n"
             "INIT TInit\nNEXT Next2\nCONSTRAINT Reach\nPOSTCONDITION Accepted\nCHECK_DEADLOCK FALSE\n")
 
@@ -64,6 +66,9 @@ NO_N_SAMPLES = {
     "PYDOE_PBDESIGN": dict,
 }
 BUDGETS = (1, 2, 3, 5, 10)
+COMPOSITE = ("MultiStart", "Augmented_Lagrangian_order_0", "Augmented_Lagrangian_order_1")
+SUBLEVEL_CALLS = ("Augmented_Lagrangian_order_0", "Augmented_Lagrangian_order_1")
+MIN_BUDGET = {"MultiStart": 3}   # documented: max_iter must exceed n_start (2 here)
 
 
 def opt_cases(ck: Check, fo):
@@ -132,16 +137,21 @@ def record_opt(fo, tid, algo, kind, linear, grad, n, norm, second, variant, rng)
     lib = fo.create(algo)
     meta = dict(kind="opt", algo=algo, problem=kind + ("-lin" if linear else ""), N=n, normalize=norm, second=second,
                 variant=variant)
-    _, exc = R.execute(rec, lib, "opt", st, grad=grad, nx=nx, kkt=variant == "kkt" and grad)
+    comp = algo in COMPOSITE
+    _, exc = R.execute(rec, lib, "opt", st, grad=grad, nx=nx, kkt=variant == "kkt" and grad, composite=comp)
     if second and exc is None:
         st2 = dict(st)
         if second == "noreset":
             st2["reset_iteration_counters"] = False
             st2["max_iter"] = n + (2 if tid % 2 else 0)
         lib2 = lib if tid % 3 == 0 else fo.create(algo)
-        R.execute(rec, lib2, "opt", st2, grad=grad, nx=nx, kkt=variant == "kkt" and grad)
+        R.execute(rec, lib2, "opt", st2, grad=grad, nx=nx, kkt=variant == "kkt" and grad, composite=comp)
     t = R.trace_of(rec, tid, meta)
-    t["noorig"] = bool(linear)
+    t["noorig"] = bool(linear) or algo in SUBLEVEL_CALLS
+    if algo in SUBLEVEL_CALLS:
+        # the sub-problems call the original functions through their own databases: at the main level
+        # only the entries, the counter, the listeners and the result are held to the specification
+        t["events"] = [e for e in t["events"] if e["ev"] != "orig"]
     return t
 
 
@@ -165,6 +175,8 @@ def record_doe(fd, tid, algo, kind, n, norm, second, variant, rng):
         st2["normalize_design_space"] = norm
         if grad:
             st2["eval_jac"] = True
+        if variant == "nodb":
+            st2["use_database"] = False
         if second == "noreset":
             st2["reset_iteration_counters"] = False
         R.execute(rec, lib if tid % 3 == 0 else fd.create(algo), "doe", st2, grad=grad)
@@ -250,7 +262,7 @@ def run(ck: Check):
            workers=8, timeout=600)
     # ... and TLC documents that without it (Jacobian-only requests, nothing stored) the call budget has no
     # mechanism; likewise without a database (design observations, not findings)
-    r = ck.tlc("Driver", model_cfg(points=2, nfuncs=1, maxexec=1, maxn=1, storejac="{FALSE}", invs=["Budget"]),
+    r = ck.tlc("Driver", model_cfg(points=3, nfuncs=1, maxexec=1, maxn=2, storejac="{FALSE}", invs=["Budget"]),
                workers=1, timeout=600, expect_ok=False, count=False, coverage=False)
     ck.extra["jac_only_requests_unstored_exceed_call_budget"] = r.violated == "Budget"
     if r.violated != "Budget":
@@ -274,12 +286,14 @@ def run(ck: Check):
     plan = []
     for (algo, kind, linear, grad) in cases:
         for n in BUDGETS:
+            if n < MIN_BUDGET.get(algo, 1):
+                continue
             for norm in (True, False):
                 for second in (None, "reset", "noreset"):
                     plan.append(("opt", algo, kind, linear, grad, n, norm, second, "std"))
         if kind in ("unc", "ineq"):
             for variant in ("nodb", "nojac", "kkt", "tol", "time"):
-                for n in (2, 5):
+                for n in (3, 5):
                     plan.append(("opt", algo, kind, linear, grad, n, True, "reset", variant))
     for algo in fd.algorithms:
         for kind in ("ineq", "raise", "nan", "int"):
@@ -302,6 +316,8 @@ def run(ck: Check):
     traces, refused = [], {}
     for tid, c in enumerate(plan, 1):
         fam, algo, kind, linear, grad, n, norm, second, variant = c
+        if os.environ.get("C03_DEBUG"):
+            print("case", tid, c, flush=True)
         try:
             if fam == "opt":
                 t = record_opt(fo, tid, algo, kind, linear, grad, n, norm, second, variant, rng)
